@@ -154,7 +154,305 @@ Proof.
   rewrite firstn_app, Nat.sub_diag, firstn_all. cbn [firstn]. apply app_nil_r.
 Qed.
 
-(*CELLS*)
+(* ------------------------------------------------------------------ *)
+(* strict decoder vs parser: cells and header                          *)
+(* ------------------------------------------------------------------ *)
+(* ---- one cell ---- *)
+Definition raw_of (c : s_cellrec) : raw_cell := mkRaw (sc_bits c) (sc_refs c) (sc_ty c).
+
+Lemma data_size_eq d2 :
+  (N.to_nat (N.shiftr d2 1) + (if N.odd d2 then 1 else 0))%nat = N.to_nat ((d2 + 1) / 2).
+Proof.
+  rewrite N.shiftr_div_pow2. change (2 ^ 1) with 2.
+  destruct (N.odd d2) eqn:Eo.
+  - apply N.odd_spec in Eo. destruct Eo as [m ->].
+    replace (2 * m + 1 + 1) with ((m + 1) * 2) by lia. rewrite N.div_mul by lia.
+    replace (2 * m + 1) with (1 + m * 2) by lia. rewrite N.div_add by lia. change (1 / 2) with 0. lia.
+  - assert (Ee : N.even d2 = true) by (rewrite <- N.negb_odd, Eo; reflexivity).
+    apply N.even_spec in Ee. destruct Ee as [m ->].
+    replace (2 * m + 1) with (1 + m * 2) by lia. rewrite N.div_add by lia.
+    replace (2 * m) with (m * 2) by lia. rewrite N.div_mul by lia. change (1 / 2) with 0. lia.
+Qed.
+
+Lemma s_cell_agree d size c r : s_cell d size = Some (c, r) ->
+  deserialize_cell d size = Ok (raw_of c, sc_len c) /\ r = skipn (sc_len c) d /\ (sc_len c <= length d)%nat.
+Proof.
+  unfold s_cell. destruct d as [|d1 [|d2 r0]]; [discriminate|discriminate|].
+  set (d := d1 :: d2 :: r0).
+  set (nrefs := N.to_nat (N.land d1 7)).
+  set (hc := N.to_nat (popcount (N.shiftr d1 5) + 1)).
+  set (hs := (if N.testbit d1 4 then hc * 34 else 0)%nat).
+  set (nbytes := N.to_nat ((d2 + 1) / 2)).
+  destruct (4 <? nrefs)%nat eqn:Enr; [discriminate|].
+  assert (Hd2 : (2 <= length d)%nat) by (unfold d; cbn [length]; lia).
+  change r0 with (skipn 2 d).
+  destruct (take hs (skipn 2 d)) as [[x1 r1]|] eqn:E1; [|discriminate].
+  destruct (take_skipn _ _ _ _ _ E1 Hd2) as (_ & -> & L1). clear E1.
+  destruct (take nbytes (skipn (2 + hs) d)) as [[data r2]|] eqn:E2; [|discriminate].
+  destruct (take_skipn _ _ _ _ _ E2 L1) as (Hdata & -> & L2). clear E2.
+  destruct (s_untag data (N.odd d2)) as [bits|] eqn:Eu; [|discriminate].
+  destruct (take_uints nrefs size (skipn (2 + hs + nbytes) d)) as [[refs r3]|] eqn:E3; [|discriminate].
+  destruct (take_uints_skipn _ _ _ _ _ _ E3 L2) as (Hrefs & -> & L3). clear E3.
+  intro E.
+  assert (Hlen : (length d - length (skipn (2 + hs + nbytes + nrefs * size) d) = 2 + hs + nbytes + nrefs * size)%nat).
+  { rewrite skipn_length. lia. }
+  rewrite Hlen in E.
+  apply untag_agree in Eu.
+  unfold deserialize_cell.
+  change (byte_at d 0) with (Ok d1). cbn [bind].
+  change (byte_at d 1) with (Ok d2). cbn [bind].
+  fold nrefs. fold hc.
+  assert (H7 : (nrefs =? 7)%nat = false) by (apply Nat.eqb_neq; lia).
+  rewrite H7. cbn [andb].
+  rewrite data_size_eq. fold nbytes.
+  assert (Hhs : ((if N.testbit d1 4 then hc * 32 else 0) + (if N.testbit d1 4 then hc * 2 else 0) = hs)%nat).
+  { unfold hs. destruct (N.testbit d1 4); lia. }
+  replace (2 + (if N.testbit d1 4 then hc * 32 else 0) + (if N.testbit d1 4 then hc * 2 else 0))%nat
+    with (2 + hs)%nat by lia.
+  assert (Hchk : (length d - 2 <? (if N.testbit d1 4 then hc * 32 else 0) + (if N.testbit d1 4 then hc * 2 else 0)
+                    + nbytes + size * nrefs)%nat = false) by (apply Nat.ltb_ge; nia).
+  rewrite Hchk. rewrite <- Hdata, Eu.
+  destruct (N.testbit d1 3); cbn [andb] in E.
+  - destruct (length bits <? 8)%nat; [discriminate|]. injection E as <- <-. cbn [bind sc_len raw_of sc_bits sc_refs sc_ty].
+    rewrite <- Hrefs. repeat split; try lia. repeat f_equal; lia.
+  - injection E as <- <-. cbn [bind sc_len raw_of sc_bits sc_refs sc_ty].
+    rewrite <- Hrefs. repeat split; try lia. repeat f_equal; lia.
+Qed.
+
+Lemma s_cells_agree size : forall n d cs r, s_cells n d size = Some (cs, r) ->
+  parse_cells n d size = Ok (map raw_of cs) /\ length cs = n.
+Proof.
+  induction n as [|n IH]; intros d cs r E.
+  - cbn [s_cells] in E. injection E as <- <-. split; reflexivity.
+  - cbn [s_cells] in E. destruct (s_cell d size) as [[c r1]|] eqn:Ec; [|discriminate].
+    destruct (s_cells n r1 size) as [[cs' r']|] eqn:Ecs; [|discriminate]. injection E as <- <-.
+    destruct (s_cell_agree _ _ _ _ Ec) as (Hc & -> & _).
+    destruct (IH _ _ _ Ecs) as [Hp Hl].
+    cbn [parse_cells]. rewrite Hc. cbn [bind]. rewrite Hp. cbn [bind map length]. split; congruence.
+Qed.
+
+
+(* ---- header ---- *)
+Definition s_body (d : list N) (reach has_idx has_crc has_cache : bool) (size off : nat) (r1 : list N) : option s_boc :=
+      match take_uint size r1 with None => None | Some (cells, r2) =>
+      match take_uint size r2 with None => None | Some (roots, r3) =>
+      match take_uint size r3 with None => None | Some (absent, r4) =>
+      match take_uint off r4 with None => None | Some (tot, r5) =>
+      match (if reach then take_uints (N.to_nat roots) size r5 else Some ([0], r5)) with None => None | Some (root_list, r6) =>
+      match (if has_idx then take_uints (N.to_nat cells) off r6 else Some ([], r6)) with None => None | Some (index, r7) =>
+      match take (N.to_nat tot) r7 with None => None | Some (cell_data, r8) =>
+      match s_cells (N.to_nat cells) cell_data size with
+      | Some (cs, []) =>
+          let crc_ok :=
+            if has_crc then beqb r8 (s_crc32c (firstn (length d - 4) d) false) && (length r8 =? 4)%nat
+            else (length r8 =? 0)%nat in
+          if crc_ok && (1 <=? roots) && (absent =? 0) && (roots + absent <=? cells)
+             && (if reach then true else roots =? 1)
+          then Some (mkSB has_idx has_crc has_cache size off cs root_list index) else None
+      | _ => None
+      end end end end end end end end.
+
+Lemma s_parse_eq d : s_parse d =
+  match take 4 d with
+  | None => None
+  | Some (magic, r) =>
+    match r with
+    | fb :: offb :: r1 =>
+      let reach := beqb magic s_magic_reach in
+      let legacy := beqb magic s_magic_idx || beqb magic s_magic_idx_crc in
+      if negb (reach || legacy) then None else
+      let has_idx := if reach then N.testbit fb 7 else true in
+      let has_crc := if reach then N.testbit fb 6 else beqb magic s_magic_idx_crc in
+      let has_cache := if reach then N.testbit fb 5 else false in
+      let flags_ok := if reach then negb (N.testbit fb 4) && negb (N.testbit fb 3) else true in
+      let size := N.to_nat (if reach then fb mod 8 else fb) in
+      let off := N.to_nat offb in
+      if negb flags_ok || (size <? 1)%nat || (4 <? size)%nat || (off <? 1)%nat || (8 <? off)%nat
+         || (has_cache && negb has_idx) then None else
+      s_body d reach has_idx has_crc has_cache size off r1
+    | _ => None
+    end
+  end.
+Proof. reflexivity. Qed.
+
+Definition hdr_body (d : list N) (reach has_idx has_crc has_cache : bool) (size : nat) : result boc_header :=
+  let dlen := length d in
+  if (dlen - 5 <? 1 + 3 * size)%nat then Err EBoc else
+  bind (byte_at d 5) (fun offb =>
+  let off := N.to_nat offb in
+  if (size =? 0)%nat then Err EValue else
+  let end1 := (6 + 3 * size)%nat in
+  let cells := of_be (slice d 6 (6 + size)) in
+  let roots := of_be (slice d (6 + size) (6 + 2 * size)) in
+  let absent := of_be (slice d (6 + 2 * size) (6 + 3 * size)) in
+  let i1 := (end1 + off)%nat in
+  let tot := of_be (slice d end1 i1) in
+  bind (if reach then
+          if (Z.of_nat dlen - Z.of_nat i1 <? Z.of_N roots * Z.of_nat size)%Z then Err EOther
+          else Ok (read_uints d i1 size (N.to_nat roots), (i1 + N.to_nat roots * size)%nat)
+        else Ok ([0], i1)) (fun '(root_list, i2) =>
+  bind (if has_idx then
+          if (Z.of_nat dlen - Z.of_nat i2 <? Z.of_nat off * Z.of_N cells)%Z then Err EBoc
+          else if (off =? 0)%nat then Err EValue
+          else Ok (Some (read_uints d i2 off (N.to_nat cells)), (i2 + N.to_nat cells * off)%nat)
+        else Ok (None, i2)) (fun '(index, i3) =>
+  if (Z.of_nat dlen - Z.of_nat i3 <? Z.of_N tot)%Z then Err EBoc else
+  let i4 := (i3 + N.to_nat tot)%nat in
+  let cells_data := slice d i3 i4 in
+  bind (if has_crc then
+          if (dlen - i4 <? 4)%nat then Err EBoc
+          else if negb (bytes_eqb (crc32c (firstn i4 d) false) (slice d i4 (i4 + 4))) then Err EBoc
+          else Ok (i4 + 4)%nat
+        else Ok i4) (fun i5 =>
+  if negb (dlen - i5 =? 0)%nat then Err EBoc
+  else Ok (mkHdr has_idx has_crc has_cache size off cells roots absent tot root_list index cells_data))))).
+
+Lemma hdr_eq d : deserialize_boc_header d =
+  let dlen := length d in
+  if (dlen <? 4)%nat then Err EBoc else
+  let magic := firstn 4 d in
+  let reach := bytes_eqb magic boc_magic in
+  bind (if reach then
+          bind (byte_at d 4) (fun fb =>
+          Ok (N.testbit fb 7, N.testbit fb 6, N.testbit fb 5, N.to_nat (fb mod 8)))
+        else if bytes_eqb magic boc_magic_idx then
+          bind (byte_at d 4) (fun sb => Ok (true, false, false, N.to_nat sb))
+        else if bytes_eqb magic boc_magic_idx_crc then
+          bind (byte_at d 4) (fun sb => Ok (true, true, false, N.to_nat sb))
+        else Err EBoc) (fun '(has_idx, has_crc, has_cache, size) => hdr_body d reach has_idx has_crc has_cache size).
+Proof. reflexivity. Qed.
+
+Lemma Forall_firstn' {A} (P : A -> Prop) : forall n l, Forall P l -> Forall P (firstn n l).
+Proof.
+  induction n as [|n IH]; intros l HF; [constructor|].
+  destruct l as [|x l]; [constructor|]. inversion HF; subst. cbn [firstn]. constructor; auto.
+Qed.
+
+Lemma beqb_eq a b : beqb a b = true <-> a = b.
+Proof. exact (bytes_eqb_eq a b). Qed.
+
+Lemma body_agree d reach has_idx has_crc has_cache size offb b :
+  bytes_ok d -> nth_error d 5 = Some offb -> (1 <= size)%nat -> (1 <= N.to_nat offb)%nat -> (6 <= length d)%nat ->
+  s_body d reach has_idx has_crc has_cache size (N.to_nat offb) (skipn 6 d) = Some b ->
+  exists h, hdr_body d reach has_idx has_crc has_cache size = Ok h /\ h_size h = size /\
+            h_root_list h = sb_roots b /\
+            s_cells (N.to_nat (h_cells h)) (h_cells_data h) size = Some (sb_cells b, []).
+Proof.
+  intros Hbytes Hoffb Hsize Hoff H6. set (off := N.to_nat offb) in *. unfold s_body.
+  destruct (take_uint size (skipn 6 d)) as [[cells r2]|] eqn:E1; [|discriminate].
+  destruct (take_uint_skipn _ _ _ _ _ E1 H6) as (Hcells & -> & L1). clear E1.
+  destruct (take_uint size (skipn (6 + size) d)) as [[roots r3]|] eqn:E2; [|discriminate].
+  destruct (take_uint_skipn _ _ _ _ _ E2 L1) as (Hroots & -> & L2). clear E2.
+  destruct (take_uint size (skipn (6 + size + size) d)) as [[absent r4]|] eqn:E3; [|discriminate].
+  destruct (take_uint_skipn _ _ _ _ _ E3 L2) as (Habsent & -> & L3). clear E3.
+  destruct (take_uint off (skipn (6 + size + size + size) d)) as [[tot r5]|] eqn:E4; [|discriminate].
+  destruct (take_uint_skipn _ _ _ _ _ E4 L3) as (Htot & -> & L4). clear E4.
+  replace (6 + size + size + size)%nat with (6 + 3 * size)%nat in * by lia.
+  replace (6 + size + size)%nat with (6 + 2 * size)%nat in * by lia.
+  set (i1 := (6 + 3 * size + off)%nat) in *.
+  match goal with |- match ?X with _ => _ end = _ -> _ => destruct X as [[root_list r6]|] eqn:E5; [|discriminate] end.
+  assert (A1 : exists i2, (if reach then
+          if (Z.of_nat (length d) - Z.of_nat i1 <? Z.of_N roots * Z.of_nat size)%Z then Err EOther
+          else Ok (read_uints d i1 size (N.to_nat roots), (i1 + N.to_nat roots * size)%nat)
+        else Ok ([0], i1)) = Ok (root_list, i2) /\ r6 = skipn i2 d /\ (i2 <= length d)%nat).
+  { destruct reach.
+    - destruct (take_uints_skipn _ _ _ _ _ _ E5 L4) as (-> & -> & L5).
+      exists (i1 + N.to_nat roots * size)%nat.
+      assert (C : (Z.of_nat (length d) - Z.of_nat i1 <? Z.of_N roots * Z.of_nat size)%Z = false).
+      { apply Z.ltb_ge. rewrite <- N_nat_Z, <- Nat2Z.inj_mul. lia. }
+      rewrite C. auto.
+    - injection E5 as <- <-. exists i1. auto. }
+  destruct A1 as (i2 & A1 & -> & L5). clear E5.
+  match goal with |- match ?X with _ => _ end = _ -> _ => destruct X as [[index r7]|] eqn:E6; [|discriminate] end.
+  assert (A2 : exists i3 idx, (if has_idx then
+          if (Z.of_nat (length d) - Z.of_nat i2 <? Z.of_nat off * Z.of_N cells)%Z then Err EBoc
+          else if (off =? 0)%nat then Err EValue
+          else Ok (Some (read_uints d i2 off (N.to_nat cells)), (i2 + N.to_nat cells * off)%nat)
+        else Ok (None, i2)) = Ok (idx, i3) /\ r7 = skipn i3 d /\ (i3 <= length d)%nat).
+  { destruct has_idx.
+    - destruct (take_uints_skipn _ _ _ _ _ _ E6 L5) as (_ & -> & L6).
+      exists (i2 + N.to_nat cells * off)%nat, (Some (read_uints d i2 off (N.to_nat cells))).
+      assert (C : (Z.of_nat (length d) - Z.of_nat i2 <? Z.of_nat off * Z.of_N cells)%Z = false).
+      { apply Z.ltb_ge. rewrite <- N_nat_Z, <- Nat2Z.inj_mul. lia. }
+      assert (C2 : (off =? 0)%nat = false) by (apply Nat.eqb_neq; lia).
+      rewrite C, C2. auto.
+    - injection E6 as _ <-. exists i2, None. auto. }
+  destruct A2 as (i3 & idx & A2 & -> & L6). clear E6.
+  destruct (take (N.to_nat tot) (skipn i3 d)) as [[cell_data r8]|] eqn:E7; [|discriminate].
+  destruct (take_skipn _ _ _ _ _ E7 L6) as (Hcd & -> & L7). clear E7.
+  destruct (s_cells (N.to_nat cells) cell_data size) as [[cs [|]]|] eqn:Ecs; [|discriminate|discriminate].
+  set (i4 := (i3 + N.to_nat tot)%nat) in *.
+  cbv zeta.
+  match goal with |- (if ?C then _ else _) = _ -> _ => destruct C eqn:Econd; [|discriminate] end.
+  intro E. injection E as <-.
+  apply andb_prop in Econd. destruct Econd as [Econd _].
+  apply andb_prop in Econd. destruct Econd as [Econd _].
+  apply andb_prop in Econd. destruct Econd as [Econd _].
+  apply andb_prop in Econd. destruct Econd as [Hcrc _].
+  assert (A3 : exists i5, (if has_crc then
+          if (length d - i4 <? 4)%nat then Err EBoc
+          else if negb (bytes_eqb (crc32c (firstn i4 d) false) (slice d i4 (i4 + 4))) then Err EBoc
+          else Ok (i4 + 4)%nat
+        else Ok i4) = Ok i5 /\ (length d - i5 =? 0)%nat = true).
+  { destruct has_crc.
+    - apply andb_prop in Hcrc. destruct Hcrc as [Hb Hl]. apply beqb_eq in Hb.
+      rewrite skipn_length in Hl. apply Nat.eqb_eq in Hl.
+      exists (i4 + 4)%nat.
+      assert (C : (length d - i4 <? 4)%nat = false) by (apply Nat.ltb_ge; lia).
+      rewrite C.
+      replace (length d - 4)%nat with i4 in Hb by lia.
+      rewrite crc32c_correct by (apply Forall_firstn'; exact Hbytes).
+      assert (Hs : slice d i4 (i4 + 4) = skipn i4 d).
+      { unfold slice. apply firstn_all2. rewrite skipn_length. lia. }
+      rewrite Hs, <- Hb.
+      assert (C2 : bytes_eqb (skipn i4 d) (skipn i4 d) = true) by (apply bytes_eqb_eq; reflexivity).
+      rewrite C2. cbn [negb]. split; [reflexivity|]. apply Nat.eqb_eq. lia.
+    - exists i4. split; [reflexivity|]. rewrite skipn_length in Hcrc. exact Hcrc. }
+  destruct A3 as (i5 & A3 & Hend).
+  eexists. unfold hdr_body. cbv zeta.
+  assert (C0 : (length d - 5 <? 1 + 3 * size)%nat = false) by (apply Nat.ltb_ge; lia).
+  rewrite C0. unfold byte_at, nth_r. rewrite Hoffb. cbn [bind].
+  assert (C1 : (size =? 0)%nat = false) by (apply Nat.eqb_neq; lia).
+  rewrite C1. fold off. fold i1.
+  rewrite <- Hcells, <- Hroots, <- Habsent, <- Htot.
+  rewrite A1. cbn [bind]. rewrite A2. cbn [bind].
+  assert (C3 : (Z.of_nat (length d) - Z.of_nat i3 <? Z.of_N tot)%Z = false) by (apply Z.ltb_ge; lia).
+  rewrite C3. fold i4. rewrite A3. cbn [bind]. rewrite Hend. cbn [negb].
+  split; [reflexivity|]. cbn [h_size h_root_list h_cells h_cells_data sb_roots sb_cells].
+  rewrite <- Hcd. auto.
+Qed.
+
+Lemma header_agree d b : bytes_ok d -> s_parse d = Some b ->
+  exists h size, deserialize_boc_header d = Ok h /\ h_size h = size /\ h_root_list h = sb_roots b /\
+     s_cells (N.to_nat (h_cells h)) (h_cells_data h) size = Some (sb_cells b, []).
+Proof.
+  intros Hbytes. rewrite s_parse_eq, hdr_eq. unfold take.
+  destruct (length d <? 4)%nat eqn:E4; [discriminate|].
+  destruct (skipn 4 d) as [|fb [|offb r1]] eqn:Es; [discriminate|discriminate|].
+  destruct (skipn_cons_nth _ _ _ _ Es) as (Hfb & Es5 & L4).
+  destruct (skipn_cons_nth _ _ _ _ Es5) as (Hoffb & Es6 & L5).
+  cbv zeta.
+  change (beqb (firstn 4 d) s_magic_reach) with (bytes_eqb (firstn 4 d) boc_magic).
+  change (beqb (firstn 4 d) s_magic_idx) with (bytes_eqb (firstn 4 d) boc_magic_idx).
+  change (beqb (firstn 4 d) s_magic_idx_crc) with (bytes_eqb (firstn 4 d) boc_magic_idx_crc).
+  unfold byte_at, nth_r. rewrite Hfb. cbn [bind].
+  destruct (bytes_eqb (firstn 4 d) boc_magic) eqn:Er.
+  - cbn [orb negb]. cbv beta iota.
+    match goal with |- (if ?C then _ else _) = _ -> _ => destruct C eqn:Ec; [discriminate|] end.
+    intro Hb. rewrite <- Es6 in Hb. apply body_agree in Hb; try assumption; try lia.
+    destruct Hb as (h & Hh & R). exists h, (N.to_nat (fb mod 8)). split; [exact Hh|exact R].
+  - destruct (bytes_eqb (firstn 4 d) boc_magic_idx) eqn:Ei;
+    destruct (bytes_eqb (firstn 4 d) boc_magic_idx_crc) eqn:Eic; cbn [orb negb]; cbv beta iota;
+      try discriminate.
+    + apply bytes_eqb_eq in Ei. apply bytes_eqb_eq in Eic. rewrite Ei in Eic. discriminate.
+    + match goal with |- (if ?C then _ else _) = _ -> _ => destruct C eqn:Ec; [discriminate|] end.
+      intro Hb. rewrite <- Es6 in Hb. apply body_agree in Hb; try assumption; try lia.
+      destruct Hb as (h & Hh & R). exists h, (N.to_nat fb). split; [exact Hh|exact R].
+    + match goal with |- (if ?C then _ else _) = _ -> _ => destruct C eqn:Ec; [discriminate|] end.
+      intro Hb. rewrite <- Es6 in Hb. apply body_agree in Hb; try assumption; try lia.
+      destruct Hb as (h & Hh & R). exists h, (N.to_nat fb). split; [exact Hh|exact R].
+Qed.
+
 
 Section Accept.
   Variable H : list N -> list N.
@@ -236,5 +534,93 @@ Section Accept.
     destruct (rebuild H raws 0) as [ks|e] eqn:Er; [|cbn [bind]; eauto].
     exfalso. destruct (rebuild_ok_refs _ _ _ Er) as [_ Hrefs].
     specialize (Hrefs ci rc r Hn Hin). lia.
+  Qed.
+
+  (* ------------------------------------------------------------------ *)
+  (* 2. everything the strict decoder accepts is parsed to the same roots *)
+  (* ------------------------------------------------------------------ *)
+  Local Notation dflt := (Cell (-1) [] []).
+
+  Lemma refs_agree (i : nat) (ks : list kcell) (built : list cell) :
+    Forall2 (fun k t => build H t = Ok k) ks built ->
+    forall refs, Forall (fun x => (i < N.to_nat x < S i + length ks)%nat) refs ->
+    exists rk,
+      mapM (fun r => if (N.to_nat r <? i)%nat then Err EOther
+                     else if (N.to_nat r =? i)%nat then Err EAttr
+                     else nth_r ks (N.to_nat r - S i)) refs = Ok rk /\
+      mapM' (build H) (map (fun x => nth (N.to_nat x - S i) built dflt) refs) = Ok rk.
+  Proof.
+    intros HF. induction refs as [|x refs IH]; intro Hr.
+    - exists []. split; reflexivity.
+    - inversion Hr as [|? ? Hx Hr']; subst. destruct (IH Hr') as (rk & E1 & E2).
+      destruct (Forall2_nth_error _ _ _ HF (N.to_nat x - S i)%nat dflt) as (k & Ek & Bk); [lia|].
+      exists (k :: rk). cbn [mapM map mapM'].
+      assert (C1 : (N.to_nat x <? i)%nat = false) by (apply Nat.ltb_ge; lia).
+      assert (C2 : (N.to_nat x =? i)%nat = false) by (apply Nat.eqb_neq; lia).
+      rewrite C1, C2. unfold nth_r at 1. rewrite Ek. cbn [bind]. rewrite E1. cbn [bind].
+      rewrite Bk. cbn [bind]. rewrite E2. cbn [bind]. split; reflexivity.
+  Qed.
+
+  Lemma rebuild_agree : forall cs i n,
+    s_refs_ok cs (N.of_nat i) n = true -> n = N.of_nat (i + length cs) ->
+    Forall (fun t => is_ok (build H t) = true) (s_trees cs i) ->
+    exists ks, rebuild H (map raw_of cs) i = Ok ks /\
+               Forall2 (fun k t => build H t = Ok k) ks (s_trees cs i).
+  Proof.
+    induction cs as [|c cs IH]; intros i n Hok Hn HF.
+    - exists []. split; [reflexivity|constructor].
+    - cbn [s_refs_ok] in Hok. apply andb_prop in Hok. destruct Hok as [Hc Hok].
+      cbn [s_trees] in HF |- *. inversion HF as [|? ? Ht HF']; subst.
+      destruct (IH (S i) (N.of_nat (i + length (c :: cs)))) as (ks & Er & HF2); [ | cbn [length]; lia | exact HF' | ].
+      { rewrite Nat2N.inj_succ, <- N.add_1_r. exact Hok. }
+      assert (Hlen : length ks = length cs).
+      { rewrite (Forall2_len _ _ _ HF2). clear. generalize (S i). induction cs; intro j; cbn [s_trees length]; auto. }
+      destruct (refs_agree i ks _ HF2 (sc_refs c)) as (rk & E1 & E2).
+      { rewrite forallb_forall in Hc. apply Forall_forall. intros x Hx. specialize (Hc x Hx).
+        cbn [length] in Hc. lia. }
+      rewrite build_eq, E2 in Ht. cbn [bind] in Ht.
+      destruct (mk_cell H (sc_ty c) (sc_bits c) rk) as [k|e] eqn:Ek; [|discriminate].
+      exists (k :: ks). cbn [map rebuild]. rewrite Er. cbn [bind raw_of r_refs r_ty r_bits].
+      rewrite E1. cbn [bind]. rewrite Ek. cbn [bind]. split; [reflexivity|].
+      constructor; [|exact HF2]. rewrite build_eq, E2. cbn [bind]. exact Ek.
+  Qed.
+
+  Lemma roots_agree (ks : list kcell) (ts : list cell) :
+    Forall2 (fun k t => build H t = Ok k) ks ts ->
+    forall roots, forallb (fun r => r <? N.of_nat (length ks)) roots = true ->
+    exists kr, mapM (fun ri => nth_r ks (N.to_nat ri)) roots = Ok kr /\
+               map (k_tree) kr = map (fun r => nth (N.to_nat r) ts dflt) roots.
+  Proof.
+    intros HF. induction roots as [|x roots IH]; intro Hr.
+    - exists []. split; reflexivity.
+    - cbn [forallb] in Hr. apply andb_prop in Hr. destruct Hr as [Hx Hr].
+      destruct (IH Hr) as (kr & E1 & E2).
+      destruct (Forall2_nth_error _ _ _ HF (N.to_nat x) dflt) as (k & Ek & Bk); [lia|].
+      exists (k :: kr). cbn [mapM map]. unfold nth_r at 1. rewrite Ek. cbn [bind]. rewrite E1. cbn [bind].
+      split; [reflexivity|]. f_equal; [|exact E2]. apply build_tree. exact Bk.
+  Qed.
+
+  Lemma parser_accepts_valid : forall d roots cs, bytes_ok d ->
+    s_all_cells d = Some cs -> s_decode d = Some roots ->
+    Forall (fun t => is_ok (build H t) = true) cs ->
+    exists ks, deserialize H d = Ok ks /\ map k_tree ks = roots.
+  Proof.
+    intros d roots cs Hbytes Hall Hdec HF.
+    unfold s_all_cells in Hall. unfold s_decode in Hdec.
+    destruct (s_parse d) as [b|] eqn:Hp; [|discriminate].
+    destruct (s_valid b) eqn:Hv; [|discriminate].
+    injection Hall as <-. injection Hdec as <-.
+    destruct (header_agree d b Hbytes Hp) as (h & size & Hh & Hsz & Hrl & Hcs).
+    destruct (s_cells_agree _ _ _ _ _ Hcs) as [Hpc Hn].
+    unfold s_valid in Hv. apply andb_prop in Hv. destruct Hv as [Hv _].
+    apply andb_prop in Hv. destruct Hv as [Hrefs Hroots].
+    destruct (rebuild_agree (sb_cells b) 0 _ Hrefs eq_refl HF) as (ks & Hrb & HF2).
+    assert (Hlen : length ks = length (sb_cells b)).
+    { rewrite <- (map_length raw_of). eapply proj1. eapply rebuild_ok_refs. exact Hrb. }
+    rewrite <- Hlen in Hroots.
+    destruct (roots_agree ks _ HF2 _ Hroots) as (kr & Hkr & Hmap).
+    exists kr. split; [|exact Hmap].
+    unfold deserialize. rewrite Hh. cbn [bind]. rewrite Hsz, Hpc. cbn [bind]. rewrite Hrb. cbn [bind].
+    rewrite Hrl. exact Hkr.
   Qed.
 End Accept.
